@@ -195,3 +195,71 @@ Print Assumptions C17_foreign_read.
 Print Assumptions C17_spellings_resolve.
 Print Assumptions C17_mkdir_coexists.
 Print Assumptions C17_create_coexists.
+
+(* ===================================================================================================
+   ADDED (T20): ARBITRARY further filesystem calls on an opened foreign archive, styles "./" and "/" (stored root "").
+   [twin c st t] (Proofs/T20Twin.v): the WRITER TWIN of the opened archive - the same members at the same tape positions,
+   an index with the same rows under ABSOLUTE names ("/", "/d/f"), cached root "/": the state a writer instance would be in
+   with the foreign members in its index.  No STFS history produced it; its C01 invariant [Inv true] is proved from the
+   definition (Proofs/T20Rebuild.v, T20Inv.v), and it is related to the opened archive by the relation of the C16
+   simulation (Proofs/T19*.v).  Hence (T19_run_sim) every later history of filesystem-level calls - absolute names, the
+   root never removed or renamed onto, header-block counts >= 1 - behaves on the archive as on the twin, and what is
+   written survives a rebuild exactly.  The twin's abstract namespace IS the tree, so for archives whose regular members
+   are empty the T02 reference semantics applies from the tree; a non-empty original member loses its recorded size under
+   a metadata update (Proofs/T20Counter.v: a finding, archive and twin alike), which is why that last statement has the
+   hypothesis [empty_files].  Plain configuration (a codec suffix changes the names a rebuild stores for foreign members).
+   =================================================================================================== *)
+From STFS Require Import C01Fs2 C01Rows Norm T19Rel T19Main T20Twin T20Inv T20Main.
+From STFS Require T02Ns T02Spec T20Abs T20Good.
+
+(* the opened archive and its twin are in the simulation; in particular the twin satisfies the C01 state invariant *)
+Theorem C17_foreign_simulates_twin : forall c st t, plain c -> 0 < c_rs c -> wf_style st -> style_root st = [] -> wf t ->
+  Sim c (twin c st t) (opened c (archive_of st t)).
+Proof. exact T20_foreign_sim. Qed.
+
+(* followed by arbitrary further filesystem calls *)
+Theorem C17_foreign_continuation : forall c st t h, plain c -> 0 < c_rs c -> c_readonly c = false ->
+  wf_style st -> style_root st = [] -> wf t ->
+  forallb (fun ke => fs_call (fst ke)) h = true -> forallb (fun ke => call_ok (fst ke)) h = true -> forallb hb_ok h = true ->
+  let sr := opened c (archive_of st t) in
+  let sa := twin c st t in
+  let sr' := final c sr h in
+  let sa' := final c sa h in
+  map ob_out (run c sr h) = map ob_out (run c sa h) /\
+  map ob_view (run c sr h) = map ob_view (run c sa h) /\
+  map ob_blocks (run c sr h) = map ob_blocks (run c sa h) /\
+  Forall2 rows_rel (map ob_rows (run c sa h)) (map ob_rows (run c sr h)) /\
+  view c sr' = view c sa' /\
+  Inv true c sa' /\ Sim c sa' sr' /\
+  (exists p, rebuild c (tp sr') = (p, Ok tt) /\ rows p = rows (db sr') /\ rows_rel (rows (db sa')) (rows (db sr'))) /\
+  forall rootp q1 q2 k,
+    let s2 := {| tp := tp sr'; db := p_empty; hbq := q1; encq := q2; clk := k |} in
+    snd (fs_initialize c s2 rootp) = OOk /\ tp (fst (fs_initialize c s2 rootp)) = tp sr' /\
+    view c (fst (fs_initialize c s2 rootp)) = view c sr'.
+Proof. exact T20_foreign_continuation. Qed.
+
+(* the twin's abstract namespace (the live rows as name -> attributes, Proofs/T02Ns.v) is the tree: every member at
+   "/" ++ its path with its kind, size, permission bits, owner, times, and the tape position of its bytes *)
+Theorem C17_twin_is_the_tree : forall c st t, wf_style st -> style_root st = [] ->
+  T02Ns.abs (twin c st t) = T20Abs.namespace_of c t.
+Proof. exact T20Abs.T20_twin_abs. Qed.
+
+(* archives whose regular members are empty: the twin is a [Good] state of the T02 theorems, so every history whose calls
+   meet the reference's preconditions returns the reference outcomes, started from the namespace of the tree - on the twin
+   and on the opened archive *)
+Theorem C17_foreign_reference : forall c st t h, plain c -> 0 < c_rs c -> c_readonly c = false ->
+  wf_style st -> style_root st = [] -> wf t -> T20Good.empty_files t ->
+  let sr := opened c (archive_of st t) in
+  let sa := twin c st t in
+  T02Spec.ok_run c sa h ->
+  T02Ns.abs sa = T20Abs.namespace_of c t /\
+  T02Spec.conforms c sa h /\ T02Spec.Good true c (final c sa h) /\
+  map ob_out (run c sr h) = map ob_out (run c sa h) /\
+  view c (final c sr h) = view c (final c sa h) /\
+  T02Ns.abs (final c sr h) = map (fun e => (norm_name (fst e), snd e)) (T02Ns.abs (final c sa h)).
+Proof. exact T20Good.T20_foreign_reference. Qed.
+
+Print Assumptions C17_foreign_simulates_twin.
+Print Assumptions C17_foreign_continuation.
+Print Assumptions C17_twin_is_the_tree.
+Print Assumptions C17_foreign_reference.
